@@ -3556,6 +3556,12 @@ static CK_RV SymDecryptFinal(Session* session, CK_BYTE_PTR pDecryptedData, CK_UL
 		}
 		// It is at least one padding byte. If no padding the all remains will be returned.
 		size_t paddingAdjustByte = cipher->getPaddingMode() ? 1 : 0;
+		if (remainingSize < paddingAdjustByte)
+		{
+			// Padded data holds at least one block: nothing was buffered
+			session->resetOp();
+			return CKR_ENCRYPTED_DATA_LEN_RANGE;
+		}
 		size = remainingSize - paddingAdjustByte;
 	}
 
